@@ -22,6 +22,7 @@ func init() {
 			{ID: "R01.3", Title: "scope recording: each ClosureLiteral carries the very Names/OuterIdents/Recursive its body was parsed with", Floor: 3, Run: ruleR013},
 			{ID: "R01.5", Title: "frame-layout algebra: Get/Push/CreateFrame/Init and the storage address exactly offs+n / offs+size / {offs+size-n, n}", Floor: 8, Run: ruleR015},
 			{ID: "R01.6", Title: "evaluation order: sub expressions are evaluated in reference order (A before B, value before inner, try before catch, callee/receiver before arguments)", Floor: 15, Run: ruleR016},
+			{ID: "R01.7", Title: "lazily compiled boolean operators yield a Bool or an error, like their eager implementations", Floor: 2, Run: ruleR017},
 			{ID: "R01.4", Title: "captured-name agreement between parseLiteral (emitted identifier names) and AddArgs (recorded outer names)", Floor: 1, Run: ruleR014},
 		},
 	})
@@ -43,6 +44,7 @@ func init() {
 				ruleR024a(c)
 			}},
 			{ID: "R02.6", Title: "sibling agreement: optimizer and generated code consult the same handlers to find the callee of a call", Floor: 2, Run: ruleR026},
+			{ID: "R01.7", Title: "lazily compiled boolean operators yield a Bool or an error, like the eager implementations the folder executes (see C01)", Floor: 2, Run: ruleR017},
 			{ID: "R02.5", Title: "panic containment: optimizer code runs only inside parser2.Optimize, which recovers and restores the AST", Floor: 10, Run: ruleR025},
 		},
 	})
@@ -76,6 +78,7 @@ func init() {
 			{ID: "R04.4", Title: "no explicit panic reachable from Parser.Parse inside package parser2", Floor: 1, Run: ruleR044},
 			{ID: "R04.6", Title: "default matchers: the start test implies the continuation predicate (symbolic implication over predicate atoms)", Floor: 2, Run: ruleR046},
 			{ID: "R04.5", Title: "result discipline: (result, nil) or (nil, non-nil error), never (nil, nil)", Floor: 90, Run: ruleR045},
+			{ID: "R04.7", Title: "slicing and indexing of strings on the parsing path is bounded by decode widths or a length test", Floor: 8, Run: ruleR047},
 		},
 	})
 	register(&Property{
@@ -94,6 +97,7 @@ func init() {
 			{ID: "R05.6", Title: "fresh value stacks (recursion guard restarts) only at the listed sites", Floor: 8, Run: ruleR056},
 			{ID: "R05.8", Title: "recursion guard: the stack grows only below a constant bound", Floor: 1, Run: ruleR058},
 			{ID: "R05.9", Title: "try/catch evaluates the try expression under a recover", Floor: 2, Run: ruleR059},
+			{ID: "R05.10", Title: "a recovered panic is reported on every path (error result set, callback called or panic raised again)", Floor: 8, Run: ruleR0510},
 		},
 	})
 	register(&Property{
